@@ -892,6 +892,15 @@ def gen_wire_history(rng):
             verb = rng.choice(["PWD", "CDUP", "TYPE"])
             ev.append((verb, "I" if verb == "TYPE" else "", None))
             continue
+        if r < 0.37:
+            # a rename whose source is named relatively, with the working directory moved before the RNTO: the source
+            # was supplied by the RNFR and means normalize(cwd AT THE RNFR, arg), whatever the cwd is at the RNTO
+            ev.append(("CWD", rng.choice(["/", "d", "/d", "x", "/e", ".."]), None))
+            ev.append(("RNFR", rng.choice(["f", "g", "d/g", "d/f", "../f", "e"]), None))
+            for _ in range(rng.randint(1, 2)):
+                ev.append(rng.choice([("CWD", "/", None), ("CWD", "d", None), ("CWD", "/d", None), ("CWD", "x", None), ("CDUP", "", None), ("CWD", "/e", None)]))
+            ev.append(("RNTO", rng.choice(["moved", "/moved", "/d/moved", "../moved2", "/e/m"]), None))
+            continue
         verb = rng.choice(PATH_VERBS)
         arg = rng.choice(WIRE_ARGS)
         item = []
@@ -1096,6 +1105,11 @@ def run_witness(flavour, base, cwd, s):
 WIRE_CORPUS = [
     [("USER", "alice", None), ("PASS", "a", None), ("RNFR", "/f", None), ("USER", "dave", None), ("PASS", "d", None), ("RNTO", "/taken", None), ("MLST", "/f", None)],
     [("USER", "alice", None), ("PASS", "a", None), ("RNFR", "d/g", None), ("USER", "nobody", None), ("USER", "carol", None), ("PASS", "c", None), ("RNTO", "g2", None)],
+]
+WIRE_CORPUS += [
+    [("USER", "alice", None), ("PASS", "a", None), ("CWD", "d", None), ("RNFR", "f", None), ("CWD", "/", None), ("RNTO", "/e/moved", None)],
+    [("USER", "bob", None), ("PASS", "b", None), ("CWD", "/x", None), ("RNFR", "f", None), ("CDUP", "", None), ("RNTO", "d/moved", None)],
+    [("USER", "root", None), ("PASS", "r", None), ("CWD", "/alice/d", None), ("RNFR", "g", None), ("CWD", "/bob/d", None), ("RNTO", "/alice/e/g", None)],
 ]
 WIRE_WITNESSES = {
     "wire-stor-root-parent-probe": [("USER", "alice", None), ("PASS", "a", None), ("PASV", "", None), (ftpsim.DATACONN, "", None), ("STOR", "/", b"x")],
